@@ -511,6 +511,26 @@ Definition sr_sort (l : list srec) : list srec := fold_right sr_insert [] l.
 (* SortedRecords::from / extend *)
 Definition sorted_records (l : list srec) : list srec := sr_dedup (sr_sort l).
 
+(* the entry points of SortedRecords, one after the other on one collection:
+   From<Vec> / from_iter (a fresh collection: sort + dedup), extend (push all,
+   sort, dedup), insert (binary_search_by canonical_cmp: an equal record is
+   refused, otherwise the record goes to the position found) *)
+Inductive sr_op := OpVec (l : list srec) | OpExtend (l : list srec) | OpInsert (x : srec).
+Definition sr_has_eq (x : srec) (v : list srec) : bool :=
+  existsb (fun y => match sr_cmp y x with Eq => true | _ => false end) v.
+Definition sr_add (v : list srec) (x : srec) : list srec := if sr_has_eq x v then v else sr_insert x v.
+Definition sr_apply (v : list srec) (op : sr_op) : list srec :=
+  match op with
+  | OpVec l => sorted_records l
+  | OpExtend l => sorted_records (v ++ l)
+  | OpInsert x => sr_add v x
+  end.
+Definition sr_run (ops : list sr_op) : list srec := fold_left sr_apply ops [].
+(* what was put into the collection since it was last created *)
+Definition sr_input_step (acc : list srec) (op : sr_op) : list srec :=
+  match op with OpVec l => l | OpExtend l => acc ++ l | OpInsert x => acc ++ [x] end.
+Definition sr_input (ops : list sr_op) : list srec := fold_left sr_input_step ops [].
+
 (* the same with the class, which Record::canonical_cmp compares first and
    Record::eq compares as well *)
 Definition crec := (N * srec)%type.
@@ -851,6 +871,7 @@ Definition c13_bm_iter (ts : list N) : outcome (list N) := bm_iter (bm_finalize 
 Definition c13_nsec_t (apex : name) (dnskey : bool) (z : list trec) : outcome (list tnsec) :=
   generate_nsecs_t apex dnskey z.
 Definition c13_dedup (l : list srec) : list rec := strip (sr_dedup l).
+Definition c13_sr_run (ops : list sr_op) : list srec := sr_run ops.
 Definition c13_sorted_records (l : list crec) : list crec := sorted_records_c l.
 Definition c13_bitmap (ts probes : list N) : bytes * list (outcome bool) :=
   let w := bm_finalize (bm_adds [] ts) in (w, map (bm_contains w) probes).
